@@ -49,4 +49,67 @@ example :
     [Event.fill [z], .cz z 3 2, .playGroup [p, p], .globalRz 1].flatMap renderOf =
       [.topHatCz z 3 2, .renderPath p, .renderPath p, .globalRz] := by decide
 
+/-! ### corollaries of the replay theorem: nothing lost, nothing invented, traps first -/
+
+/-- the paths an event plays, in order -/
+def playedPaths : Event → List PathVal
+  | .play p => [p]
+  | .playGroup ps => ps
+  | _ => []
+
+/-- the path argument of a `render_path` call -/
+def Call.path? : Call → Option PathVal
+  | .renderPath p => some p
+  | _ => none
+
+theorem renderOf_paths (e : Event) : (renderOf e).filterMap Call.path? = playedPaths e := by
+  cases e <;> simp [renderOf, playedPaths, Call.path?, List.filterMap_map, Function.comp_def]
+
+theorem flatMap_filterMap_paths (evs : List Event) :
+    (evs.flatMap renderOf).filterMap Call.path? = evs.flatMap playedPaths := by
+  induction evs with
+  | nil => rfl
+  | cons e es ih => simp [List.flatMap_cons, List.filterMap_append, renderOf_paths, ih]
+
+/-- **No path is lost, duplicated, reordered or invented**: the `render_path` calls the renderer
+receives are exactly the played paths (group members flattened in group order), in execution
+order — for every program, every argument list and every fuel. -/
+theorem C16_paths_exact (fuel : Nat) (c : Ctx) (traps : List (String × Grid)) (name : String) (args : List Val)
+    (v : Val) (evs : List Event) (h : runKernel fuel c name args = .ok (v, evs)) :
+    ∃ calls, visualize fuel c traps name args = .ok calls ∧
+      calls.filterMap Call.path? = evs.flatMap playedPaths := by
+  refine ⟨_, C16_replay fuel c traps name args v evs h, ?_⟩
+  simp [List.filterMap_append, flatMap_filterMap_paths, List.filterMap_map, Function.comp_def, Call.path?]
+
+/-- **Traps first**: the first `traps.length` calls are the `render_traps` calls of the static
+zones in table order, and none follows them. -/
+theorem C16_traps_first (fuel : Nat) (c : Ctx) (traps : List (String × Grid)) (name : String) (args : List Val)
+    (v : Val) (evs : List Event) (h : runKernel fuel c name args = .ok (v, evs)) :
+    ∃ calls, visualize fuel c traps name args = .ok calls ∧
+      calls.take traps.length = traps.map (fun p => Call.renderTraps p.2 p.1) ∧
+      ∀ x ∈ calls.drop traps.length, ∀ z n, x ≠ Call.renderTraps z n := by
+  refine ⟨_, C16_replay fuel c traps name args v evs h, ?_, ?_⟩
+  · simp
+  · have hl : (traps.map (fun p => Call.renderTraps p.2 p.1)).length = traps.length := by simp
+    rw [← hl, List.drop_left]
+    intro x hx z n
+    simp only [List.mem_flatMap] at hx
+    obtain ⟨e, _, hxe⟩ := hx
+    cases e <;> simp [renderOf] at hxe <;> (try (rcases hxe with ⟨_, _, rfl⟩)) <;> (try subst hxe) <;> simp
+
+/-- the number of calls is determined by the event log: one per static zone, one per gate, one
+per played path -/
+theorem C16_call_count (evs : List Event) :
+    (evs.flatMap renderOf).length = (evs.map fun e => (renderOf e).length).sum := by
+  induction evs with
+  | nil => rfl
+  | cons e es ih => simp [List.flatMap_cons, ih]
+
+example :
+    let z : Grid := ⟨[1], [], some 0, some 0⟩
+    let p : PathVal := ⟨[0], [0], [.way [z]]⟩
+    let q : PathVal := ⟨[1], [0], [.way [z]]⟩
+    ([Event.play q, .cz z 3 2, .playGroup [p, q], .fill [z]].flatMap renderOf).filterMap Call.path? = [q, p, q] := by
+  decide
+
 end Shuttle.Props.C16
